@@ -3,12 +3,12 @@ from tools import coll, vlib
 
 
 class C08(vlib.Spec):
-    model_vo = ["theories/Coll/ModelGHT.vo"]
+    model_vo = ["theories/Coll/ModelGHT2.vo"]
     props_vo = "theories/Props/C08.vo"
     theorems = ["C08_history", "C08_insert", "C08_contains", "C08_iter_nodup", "C08_merge", "C08_pcmp", "C08_pcmp_rel", "C08_eq",
                 "C08_prefix", "C08_find_leaf", "C08_join", "C08_join_nodup", "C08_cart", "C08_force", "C08_holds_b_sound"]
     crate, group, binary = "h_coll", "light", "h_coll"
-    imports = "From HV Require Import Coll.ModelGHT."
+    imports = "From HV Require Import Coll.ModelGHT2."
     harness_shards = 4
     trusted_base = ["coqc 8.16.1 kernel (vm_compute used for case evaluation only)",
                     "hand-written Gallina model coq/theories/Coll/ModelGHT.v (+ ModelVC.v for the leaf storage); "
@@ -28,22 +28,25 @@ class C08(vlib.Spec):
         got = {s["shape"]: {"nk": s["nk"], "arity": s["arity"], "nko": s["nko"]} for s in shapes}
         if got != coll.GHT_SHAPES:
             raise RuntimeError("harness shapes differ from tools/coll.py: %r" % got)
-        return coll.gen_ght(rng, tier, n)
+        return coll.gen_c08(rng, tier, n)
 
     def n_cases(self, tier):
         return 500 if tier == "quick" else 8000
 
     def to_coq(self, case, res):
-        return coll.ght_term(case, res)
+        return coll.c08_term(case, res)
 
     def shrink(self, case):
-        return coll.shrink_ght(case)
+        return coll.shrink_c08(case)
 
     def finding_key(self, case, res):
-        return coll.ght_finding_key(case, res)
+        # state-based: the class of the deviations is computed in Coq from the model's state
+        if case.get("k") != "ght2":
+            return None
+        return coll.X_KEYS.get(self.recorder.klass(case))
 
     def nontrivial(self, case, res):
-        return coll.ght_nontrivial(case, res)
+        return coll.c08_nontrivial(case, res)
 
     def describe(self, case, res):
         c = dict(case)
@@ -53,10 +56,11 @@ class C08(vlib.Spec):
         return {"case": c, "impl": r}
 
     def distribution(self, cases, results):
-        return coll.ght_distribution(cases, results)
+        return coll.c08_distribution(cases, results)
 
 
 def main(ctx):
     spec = C08()
     spec.ctx = ctx
+    spec.recorder = coll.VerdictRecorder(vlib)
     vlib.standard_check(ctx, spec)
